@@ -130,6 +130,29 @@ CLAIMS["C06"] = (
     "scheme (gbest_*/best_*/prop_*); a rewrite with other names is reported as unrecognised.",
     "DESIGN.md §4 C06")
 
+CLAIMS["C09"] = (
+    "spec congruence through an algebraic normal form + forward taint with function summaries (reciprocal-multiply values reaching comparisons "
+    "with 1) + dtype rule against int8 accumulation + structural rules for class counts and complement forms (ast)",
+    "Decides: every statistic of both genotype classes (tafreq, acount, afreq, maf, meh, gtfreq, codings) normalises to its definition (so the phased "
+    "and unphased forms agree by construction); gtcount counts exactly the ploidy+1 classes and writes every row; afixed/apoly are written in "
+    "complementary forms; no value computed as (1/D)*N reaches a comparison with 1 anywhere in the genotype / genomic-model code (interprocedural, "
+    "through returns and arguments), which is what makes 'exactly 0 or 1' hold for every population size; no reduction over taxa/variants and no "
+    "matrix product is carried out in the int8 storage dtype.",
+    "Trusted: IEEE-754 (n/n == 1.0 exactly), numpy's promotion of small integers in sum() and non-promotion in einsum/matmul. "
+    "Exact floating-point values away from the 0/1 boundary and user-requested narrow output dtypes are not decided.",
+    "DESIGN.md §4 C09")
+CLAIMS["C10"] = (
+    "spec congruence of the limit formulas and their mirror relation (algebraic normal form) + boundary-exactness taint + int8-accumulator rule + "
+    "closure lemmas from the meiosis template (ast)",
+    "Decides the formulas and the lemmas, not the history quantifier itself: usl_numpy / lsl_numpy normalise to ploidy*sum u*[u>0 ? p>0 : p>=1] and its "
+    "mirror, add the same intercept, and receive p and ploidy from the matrix's own afreq()/ploidy; every comparison with 1 in that code receives an "
+    "exactly computed frequency; frequencies are not accumulated in int8; and (from C01) every gamete entry is a copy of the selected parent's allele at "
+    "the same marker, female/male gametes come from their own parents - so an allele absent from all selected parents cannot appear in progeny. "
+    "Monotonicity along every closed history is the logical consequence of these facts for exact frequencies; it is stated as an argument in the "
+    "evidence, not explored.",
+    "Trusted: numpy.where / comparison semantics, IEEE-754 exact division at n/n. Selection rules and protocol parameters are not enumerated.",
+    "DESIGN.md §4 C10")
+
 NOT_YET = "rule set not built yet (build in progress; see DESIGN.md §8)"
 NA = {}
 
